@@ -1,6 +1,7 @@
 """Helpers shared by check scripts."""
 import json
 import os
+import re
 import vf
 
 
@@ -17,40 +18,64 @@ def gen_cfg(base_cfg, subst, suffix):
     return name
 
 
-def validate_trace(ck, module, trace_path, what, key_prefix, timeout=1800, extra_env=None):
-    """Run a Trace_* spec over a recorded ndjson trace. Returns True if accepted."""
-    env = {"TRACE": trace_path}
-    if extra_env:
-        env.update(extra_env)
-    res = vf.tlc(module, env=env, workers=1, timeout=timeout, dfs=True, coverage=False, heap="8g")
-    ck.add_tlc(res, module)
-    vf.tlc_must_run(res, module)
-    if res.violated:
-        recs = vf.read_ndjson(trace_path)
-        rej = [p for p in res.prints if "TRACE-REJECTED" in p]
-        # locate the event index
-        idx = None
-        if rej:
-            import re
-            m = re.search(r'"TRACE-REJECTED", (\d+)', rej[0])
-            if m:
-                idx = int(m.group(1))
-        bad = recs[idx - 1] if idx and idx <= len(recs) else None
-        # find the enclosing case (last reset before idx)
-        case = None
-        if idx:
-            for r in recs[:idx][::-1]:
-                if r.get("ev") == "reset":
-                    case = r
-                    break
+def _rejected_index(res):
+    for p in res.prints:
+        m = re.search(r'"TRACE-REJECTED",\s*(\d+)', p)
+        if m:
+            return int(m.group(1))
+    m = re.search(r'"TRACE-REJECTED",\s*(\d+)', res.out)
+    return int(m.group(1)) if m else None
+
+
+def validate_trace(ck, module, trace_path, what, key_prefix, timeout=1800, extra_env=None, keyfn=None, max_rounds=12):
+    """Run a Trace_* spec over a recorded ndjson trace (cases separated by `reset` events).
+    On rejection the offending case is reported, removed, and the rest re-validated, so that one
+    bad case does not hide the others.  Returns True if the whole trace was accepted at once."""
+    recs = vf.read_ndjson(trace_path)
+    first = True
+    all_ok = True
+    cur_path = trace_path
+    for rnd in range(max_rounds):
+        env = {"TRACE": cur_path}
+        if extra_env:
+            env.update(extra_env)
+        res = vf.tlc(module, env=env, workers=1, timeout=timeout, dfs=True, coverage=False, heap="8g")
+        ck.add_tlc(res, module)
+        vf.tlc_must_run(res, module)
+        if not res.violated:
+            if first:
+                ck.traces += 1
+            return all_ok
+        all_ok = False
+        first = False
+        idx = _rejected_index(res)
         inv = [v for v in res.violated if v != "POSTCONDITION"]
-        p = ck.replay_file(os.path.basename(trace_path), open(trace_path).read())
-        key = f"{key_prefix}:{(bad or {}).get('ev')}" + (":" + ",".join(inv) if inv else "")
-        ck.violation(key, f"{what}: recorded trace of the real code is not a behaviour of {module}" + (f" (invariant {inv})" if inv else ""),
-                     {"first_unexplained_event_index": idx, "event": bad, "case": case, "trace": p, "violated": res.violated})
-        return False
-    ck.traces += 1
-    return True
+        if idx is None and inv:
+            # an invariant failed: the offending event is the last consumed one = number of states - 1
+            idx = max(1, res.distinct - 1)
+        if idx is None or idx > len(recs):
+            ck.violation(f"{key_prefix}:unlocated", f"{what}: trace rejected by {module} (event not located)", {"violated": res.violated})
+            return False
+        bad = recs[idx - 1]
+        lo = idx - 1
+        while lo > 0 and recs[lo].get("ev") != "reset":
+            lo -= 1
+        hi = idx
+        while hi < len(recs) and recs[hi].get("ev") != "reset":
+            hi += 1
+        case = recs[lo:hi]
+        key = keyfn(case, bad) if keyfn else f"{key_prefix}:{bad.get('ev')}"
+        if inv:
+            key += ":" + ",".join(inv)
+        ck.violation(key, f"{what}: recorded trace of the real code is not a behaviour of {module}"
+                     + (f" (invariant {inv})" if inv else f" (event #{idx - lo} of the case, '{bad.get('ev')}', cannot be explained)"),
+                     {"module": module, "unexplained_event": bad, "violated": res.violated, "case_trace": case})
+        recs = recs[:lo] + recs[hi:]
+        if not recs:
+            return False
+        cur_path = trace_path + f".r{rnd}"
+        vf.write_ndjson(cur_path, recs)
+    return False
 
 
 def collect_replay_results(ck, outp, what, keyfn):
